@@ -322,8 +322,8 @@ func (w *World) healSuffix() {
 			if len(live) > 0 {
 				n := live[probeRR%len(live)]
 				probeRR++
-				w.seq++
-				w.doPropose(n, [][]byte{[]byte(fmt.Sprintf("h%dk0", w.seq))}, false)
+				w.healSeq++
+				w.doPropose(n, [][]byte{[]byte(fmt.Sprintf("h%dk0", w.healSeq))}, false)
 			}
 		}
 		if !w.settle() {
@@ -423,8 +423,8 @@ func (w *World) finalProbes() {
 	}
 	sort.Slice(ids, func(i, j int) bool { return ids[i] < ids[j] })
 	for i := 0; i < 3; i++ {
-		w.seq++
-		p := []byte(fmt.Sprintf("f%dk0", w.seq))
+		w.healSeq++
+		p := []byte(fmt.Sprintf("f%dk0", w.healSeq))
 		target := l
 		if i == 2 && len(ids) > 1 {
 			for _, id := range ids {
